@@ -41,8 +41,11 @@ pub fn slot_sx(s: Slot) -> Sx {
             if r == n.to_string() && n < (1 << 30) - 1 { return lst(vec![sym("f"), num(n)]); }
         }
     }
-    if let Some(r) = t.strip_prefix('x') {
-        if let Ok(n) = r.parse::<u64>() { if r == n.to_string() && n < 16 { return lst(vec![sym("n"), num(n)]); } }
+    // only in threads where (n k) inputs were decoded (and x0..x15 interned first) do the names x<k> stand for (n k)
+    if INTERNED.with(|c| c.get()) {
+        if let Some(r) = t.strip_prefix('x') {
+            if let Ok(n) = r.parse::<u64>() { if r == n.to_string() && n < 16 { return lst(vec![sym("n"), num(n)]); } }
+        }
     }
     lst(vec![sym("s"), crate::c17::text_sx(t)])
 }
